@@ -34,10 +34,17 @@ def gen(rng, tier):
         k = rng.randint(2, 8 if tier == 'thorough' else 6)
         if rng.random() < 0.15:
             k = rng.randint(17, 20)      # large matrices (code paths that depend on the dimension)
-        style = rng.choice(['general', 'stochastic', 'symmetric', 'cyclic'])
+        style = rng.choice(['general', 'stochastic', 'symmetric', 'cyclic', 'near-symmetric'])
         M = [[Fraction(rng.randint(-9, 9), rng.choice([1, 2, 4, 5])) for _ in range(k)] for _ in range(k)]
-        if style == 'symmetric':
+        if style in ('symmetric', 'near-symmetric'):
             M = [[M[min(i, j)][max(i, j)] for j in range(k)] for i in range(k)]
+            if style == 'near-symmetric':
+                # symmetric up to a relative 1e-6..8e-6 in a few entries: "close" for np.allclose, yet a different matrix
+                for _p in range(rng.randint(1, 3)):
+                    i, j = rng.sample(range(k), 2)
+                    if M[i][j] == 0:
+                        M[i][j] = M[j][i] = Fraction(rng.choice([-7, 3, 5]))
+                    M[i][j] = M[i][j] * (1 + Fraction(rng.randint(1, 8), 10**6))
         elif style in ('stochastic', 'cyclic'):
             Cm = [[(rng.randint(0, 9) if rng.random() < 0.6 else 0) for _ in range(k)] for _ in range(k)]
             if style == 'cyclic':
